@@ -10,6 +10,8 @@
 #include <fcntl.h>
 #include <errno.h>
 #include <sys/mman.h>
+#include <locale.h>
+#include <ctype.h>
 
 static struct {
     long vectors, calls, checked, pinned, viol, drift;
@@ -201,6 +203,10 @@ common_init (const char *dir, long stride_)
     snprintf (path, sizeof path, "%s/current.txt", dir);
     fd_current = open (path, O_WRONLY | O_CREAT | O_TRUNC, 0644);
     guard_init ();
+    if (getenv ("VERIF_LOCALE")) {      /* run the vectors in the single-byte locale prepared by the checker */
+        if (!setlocale (LC_ALL, getenv ("VERIF_LOCALE"))) die ("setlocale (VERIF_LOCALE) failed");
+        if (!isalnum (0xe9)) die ("VERIF_LOCALE is not the single-byte locale expected");
+    }
 
     memset (&sa, 0, sizeof sa);
     sa.sa_handler = on_fatal;
